@@ -79,6 +79,11 @@ class Protocol:
                 st.g["switches"] = sw + ((cur, name),)
             else:
                 st.g["switch_overflow"] = True
+                # a single collection call that keeps changing phase: it runs whole cycles back to back (with the debt
+                # read nondeterministic nothing ever stops it) - not a path worth following to the step budget
+                raise interp.InterpError("[pacing] one collection call passes through more than 12 phase changes (%s ...): "
+                                         "it starts new cycles without returning - a debt-driven call performs at most the "
+                                         "rest of the running cycle and one further whole cycle" % (list(sw[:6]),))
             st.event("switch", cur, name)
             return NotImplemented
 
